@@ -53,6 +53,21 @@ impl BlockDefinition {
 //@end
 }
 
+// ---- the specification's lookup (versatiles v02): a block's tile index is the brotli-compressed list of 12-byte records at
+// `index_range`; entry offsets are relative to the block's tile section and become absolute by adding `tiles_range.offset`
+pub uninterp spec fn dec_index(bytes: Seq<u8>) -> Option<Seq<ByteRange>>;
+pub open spec fn rebase1(e: ByteRange, off: u64) -> ByteRange {
+	ByteRange { offset: if e.offset + off > u64::MAX { u64::MAX } else { (e.offset + off) as u64 }, length: e.length }
+}
+pub open spec fn rebase(s: Seq<ByteRange>, off: u64) -> Seq<ByteRange> { Seq::new(s.len(), |i: int| rebase1(s[i], off)) }
+pub open spec fn idx_spec(file: Seq<u8>, b: BlockDefinition) -> Option<Seq<ByteRange>> {
+	if b.index_range.offset + b.index_range.length <= file.len() {
+		match dec_index(file.subrange(b.index_range.offset as int, b.index_range.offset + b.index_range.length)) {
+			Some(s) => Some(rebase(s, b.tiles_range.offset)),
+			None => None,
+		}
+	} else { None }
+}
 //@extract struct file="versatiles_container/src/container/versatiles/types/tile_index.rs" name="TileIndex"
 //@end
 impl TileIndex {
@@ -67,12 +82,27 @@ impl TileIndex {
 //@spec
 		ensures r == self.index@.len()
 //@end
-	// decoding + decompression of a tile index: any index or an error (the record loop and brotli are not under contract here)
+	// decoding + decompression of a tile index: an error, or the entries `dec_index` gives for these bytes (brotli axiom + the
+	// 12-byte record rule, which unit tile_index proves for TileIndex::from_blob)
 	#[verifier::external_body]
-	pub fn from_brotli_blob(buf: Blob) -> (r: Result<TileIndex, VErr>) { unimplemented!() }
-	// iter_mut().for_each(..): re-bases every offset, keeps the number of entries
-	#[verifier::external_body]
-	pub fn add_offset(&mut self, offset: u64) ensures final(self).index@.len() == old(self).index@.len() { unimplemented!() }
+	pub fn from_brotli_blob(buf: Blob) -> (r: Result<TileIndex, VErr>)
+		ensures r is Ok ==> dec_index(buf@) == Some(r.unwrap().index@)
+	{ unimplemented!() }
+// R7 (loop shape): iter_mut().for_each(closure) -> index loop over the same vector, same assignment (as in unit tile_index)
+//@extract fn file="versatiles_container/src/container/versatiles/types/tile_index.rs" scope="impl TileIndex" name="add_offset"
+//@rewrite "self .index .iter_mut() .for_each(|r| r.offset = r.offset" => "for vi in 0..self.index.len() { self.index[vi].offset = self.index[vi].offset" R7
+//@rewrite "));" => "); }" R7
+//@spec
+		ensures final(self).index@ == rebase(old(self).index@, offset)
+//@start
+		let ghost s0 = self.index@;
+//@loop 1 iter=it
+			invariant self.index@.len() == s0.len(), it.iter.end == s0.len(),
+				forall|i: int| 0 <= i < it.index@ ==> #[trigger] self.index@[i] == rebase(s0, offset)[i],
+				forall|i: int| it.index@ <= i < self.index@.len() ==> #[trigger] self.index@[i] == s0[i],
+//@after "); }"
+		proof { assert(self.index@ =~= rebase(s0, offset)); }
+//@end
 }
 
 // R6 stand-ins: DataReader -> AbsFile; BlockIndex (HashMap<TileCoord3, BlockDefinition>) -> AbsBlockIndex;
@@ -99,19 +129,27 @@ impl AbsBlockIndex {
 impl AbsIndexCache {
 	// number of tiles the index of block k must have (ghost; fixed when the reader is opened)
 	pub uninterp spec fn expected(&self, k: TileCoord3) -> int;
+	// the only value that may be stored under key k (ghost; fixed when the reader is opened): see VersaTilesReader::inv
+	pub uninterp spec fn admissible(&self, k: TileCoord3, s: Seq<ByteRange>) -> bool;
 	#[verifier::external_body]
-	pub fn lock(&self) -> (g: AbsCacheGuard) ensures forall|k: TileCoord3| g.expected(k) == self.expected(k) { unimplemented!() }
+	pub fn lock(&self) -> (g: AbsCacheGuard) ensures forall|k: TileCoord3| g.expected(k) == self.expected(k),
+		forall|k: TileCoord3, s: Seq<ByteRange>| #[trigger] g.admissible(k, s) == self.admissible(k, s) { unimplemented!() }
 }
 impl AbsCacheGuard {
 	pub uninterp spec fn expected(&self, k: TileCoord3) -> int;
+	pub uninterp spec fn admissible(&self, k: TileCoord3, s: Seq<ByteRange>) -> bool;
 	#[verifier::external_body]
 	pub fn get(&mut self, key: &TileCoord3) -> (r: Option<Arc<TileIndex>>)
-		ensures forall|k: TileCoord3| final(self).expected(k) == old(self).expected(k), r is Some ==> r.unwrap().index@.len() == old(self).expected(*key)
+		ensures forall|k: TileCoord3| final(self).expected(k) == old(self).expected(k), r is Some ==> r.unwrap().index@.len() == old(self).expected(*key),
+			forall|k: TileCoord3, s: Seq<ByteRange>| #[trigger] final(self).admissible(k, s) == old(self).admissible(k, s),
+			r is Some ==> old(self).admissible(*key, r.unwrap().index@)
 	{ unimplemented!() }
 	#[verifier::external_body]
 	pub fn add(&mut self, key: TileCoord3, value: Arc<TileIndex>) -> (r: Arc<TileIndex>)
-		requires value.index@.len() == old(self).expected(key)
-		ensures forall|k: TileCoord3| final(self).expected(k) == old(self).expected(k), r.index@.len() == old(self).expected(key)
+		requires value.index@.len() == old(self).expected(key), old(self).admissible(key, value.index@)
+		ensures forall|k: TileCoord3| final(self).expected(k) == old(self).expected(k), r.index@.len() == old(self).expected(key),
+			forall|k: TileCoord3, s: Seq<ByteRange>| #[trigger] final(self).admissible(k, s) == old(self).admissible(k, s),
+			r.index@ == value.index@
 	{ unimplemented!() }
 }
 #[verifier::external_body] pub struct FileHeader { }
@@ -127,14 +165,21 @@ impl VersaTilesReader {
 	pub open spec fn inv(&self) -> bool {
 		forall|k: TileCoord3| #[trigger] self.block_index.map().contains_key(k) ==> {
 			let b = self.block_index.map()[k];
-			b.ok() && b.offset == k && self.tile_index_cache.expected(k) == b.tiles_coverage.w() * b.tiles_coverage.h() }
+			b.ok() && b.offset == k && self.tile_index_cache.expected(k) == b.tiles_coverage.w() * b.tiles_coverage.h()
+			&& self.adm(b) }
+	}
+	// rely/guarantee of the index cache: under a block's key only the decoded, re-based index of that block in this file is stored
+	pub open spec fn adm(&self, b: BlockDefinition) -> bool {
+		forall|s: Seq<ByteRange>| #[trigger] self.tile_index_cache.admissible(b.offset, s) <==> idx_spec(self.reader.bytes(), b) == Some(s)
 	}
 //@extract fn file="versatiles_container/src/container/versatiles/reader.rs" scope="impl VersaTilesReader" name="get_block_tile_index"
 //@ret r
 //@spec
-		requires block.ok(), self.tile_index_cache.expected(block.offset) == block.tiles_coverage.w() * block.tiles_coverage.h()
-		// an index with exactly one entry per tile of the block, or an error (never a panic: C19)
-		ensures r is Ok ==> r.unwrap().index@.len() == block.tiles_coverage.w() * block.tiles_coverage.h()
+		requires block.ok(), self.tile_index_cache.expected(block.offset) == block.tiles_coverage.w() * block.tiles_coverage.h(), self.adm(*block)
+		// an index with exactly one entry per tile of the block, or an error (never a panic: C19); the index is the one the
+		// specification defines for this block of this file (C16), whether it comes from the cache or from the file
+		ensures r is Ok ==> r.unwrap().index@.len() == block.tiles_coverage.w() * block.tiles_coverage.h(),
+			r is Ok ==> idx_spec(self.reader.bytes(), *block) == Some(r.unwrap().index@)
 //@end
 //@extract fn file="versatiles_container/src/container/versatiles/reader.rs" scope="impl TilesReaderTrait for VersaTilesReader" name="get_tile_data"
 //@rewrite "coord.x.shr(8)" => "(coord.x >> 8)" R7
@@ -147,6 +192,20 @@ impl VersaTilesReader {
 			// the tile lies in the block (x >> 8, y >> 8, z) of the (possibly sparse) block index and inside that block's box
 			let k = TileCoord3 { x: coord.x >> 8, y: coord.y >> 8, z: coord.z };
 			self.block_index.map().contains_key(k) && self.block_index.map()[k].global_bbox.has(coord.x as int, coord.y as int) }),
+			// C16/C01: the bytes are those the specification's lookup gives: entry (row-major position inside the block's box) of
+			// the block's decoded index, re-based by the block's tile-section offset; an entry of length 0 means "no tile"
+			r is Ok && r.unwrap() is Some ==> ({
+				let b = self.block_index.map()[TileCoord3 { x: coord.x >> 8, y: coord.y >> 8, z: coord.z }];
+				let idx = idx_spec(self.reader.bytes(), b);
+				let e = idx.unwrap()[(coord.y - b.global_bbox.y_min) * b.global_bbox.w() + (coord.x - b.global_bbox.x_min)];
+				idx is Some && e.length > 0 && e.offset + e.length <= self.reader.bytes().len()
+				&& r.unwrap().unwrap()@ == self.reader.bytes().subrange(e.offset as int, e.offset + e.length) }),
+			r is Ok && r.unwrap() is None ==> ({
+				let k = TileCoord3 { x: coord.x >> 8, y: coord.y >> 8, z: coord.z };
+				let b = self.block_index.map()[k];
+				!self.block_index.map().contains_key(k) || !b.global_bbox.has(coord.x as int, coord.y as int)
+				|| (idx_spec(self.reader.bytes(), b) is Some
+					&& idx_spec(self.reader.bytes(), b).unwrap()[(coord.y - b.global_bbox.y_min) * b.global_bbox.w() + (coord.x - b.global_bbox.x_min)].length == 0) }),
 //@end
 }
 } // verus!
